@@ -377,3 +377,41 @@ Definition rt_check (o : vopts) (n : nv) : bool :=
   | WOk d => match elab d with Ok n' => same_conn_b o n n' | Err _ => false end
   | _ => false
   end.
+
+(* ---------- what rt_check certifies (statements only; Proofs/VEmitRound.v) ---------- *)
+(* the instances of [a] are instances of [b]: same name, same definition, same parameters and attributes *)
+Definition insts_in (a b : list nv_inst) : Prop :=
+  forall i, In i a -> exists j, In j b /\ ni_name j = ni_name i /\ ni_ref j = ni_ref i /\
+    same_set (ni_params i) (ni_params j) /\ same_set (ni_attrs i) (ni_attrs j).
+
+(* the comparison of the property on one module: the ordered ports with direction, width and lower index, the
+   instances by name, and bit by bit the same connectivity (VDoc.net_of: the endpoints joined to a net bit) *)
+Definition same_conn_def (a b : nv_def) : Prop :=
+  nd_name a = nd_name b /\ nd_ports a = nd_ports b /\
+  insts_in (nd_insts a) (nd_insts b) /\ insts_in (nd_insts b) (nd_insts a) /\
+  (forall r, same_set (net_of r a) (net_of r b)).
+
+(* same top, and every module the writer writes under the options comes back with the same connectivity *)
+Definition same_conn (o : vopts) (n n' : nv) : Prop :=
+  nv_top n = nv_top n' /\
+  forall d, In d (nv_defs n) -> is_written o d = true -> exists d', In d' (nv_defs n') /\ same_conn_def d d'.
+
+(* ---------- the class on which the round trip is claimed (C04_emit_roundtrip_full; evaluated on every run) ----------
+   every port of a written module has a direction and all its pins are on wires of the cable that has the port's
+   name (no header alias, no port without a cable: open finding V04-port-without-cable), and the
+   document is written (emit succeeds) *)
+Definition port_plain (d : nv_def) (p : nv_port) : bool :=
+  match np_dir p, np_label p with
+  | Some _, LName nm =>
+      match cable_idx d nm with
+      | Some k => forallb (fun w => match w with Some (c, _) => Nat.eqb c k | None => false end)
+                          (pin_wires d (EPort (np_label p)) p)
+                  && negb (is_pinset_concatenated (Some k) (pin_wires d (EPort (np_label p)) p))
+      | None => false
+      end
+  | _, _ => false
+  end.
+
+Definition writable (o : vopts) (n : nv) : bool :=
+  forallb (fun d => negb (is_written o d) || forallb (port_plain d) (nd_ports d)) (nv_defs n)
+  && match emit o n with WOk _ => true | _ => false end.
